@@ -274,7 +274,7 @@ func runRepoWalk(c *vk.Ctx, prop string, disk bool, walk []*graph.Edge, seed int
 			rr.prevDoc = keyStr(from.LiveDoc.Keys)
 			rr.sawNew = map[string]bool{}
 			rw.fault.mu.Lock()
-			rw.fault.failCreate, rw.fault.failInsertN = false, 0
+			rw.fault.failCreate, rw.fault.failInsertN, rw.fault.failUpdate = false, 0, false
 			rw.fault.mu.Unlock()
 			if to.Kind == "first" {
 				rr.next = rw.run(func() { rw.w.Handshake(rw.chains["driver"]) })
@@ -282,6 +282,17 @@ func runRepoWalk(c *vk.Ctx, prop string, disk bool, walk []*graph.Edge, seed int
 				rr.next = rw.run(func() { rw.w.RefreshAll() })
 			}
 			if s := rr.advanceTo(siteFor(to.Kind, "tmp")); s != siteFor(to.Kind, "tmp") {
+				if s == "" && to.Kind == "first" && to.Origin.Kind == "good" && (rr.prop == "C08" || rr.prop == "C12") {
+					// nothing is in force for this location (every earlier load failed), the origin serves an acceptable list, a
+					// certificate that names the location was presented with fetch_actively - and no load was even started
+					rr.next = nil
+					res, _ := rw.probe(200 * time.Millisecond)
+					if got, ok := listedOf(res); !ok || got != keyStr(to.Origin.Keys) {
+						stop.Probes = res
+						c.Violation(fmt.Sprintf("%s:acceptable-first-load-does-not-take-effect:stops-at=start", backendName(disk)),
+							fmt.Sprintf("no list is in force for the location (the earlier loads failed), the origin serves an acceptable list {%s}, but the handshake that names the location started no load and the lookups answer {%s} (ok=%v)", keyStr(to.Origin.Keys), got, ok), rr.rep2(&stop))
+					}
+				}
 				c.Drift("repo-start:" + to.Kind + ":" + s)
 				return rr.images
 			}
@@ -335,6 +346,11 @@ func runRepoWalk(c *vk.Ctx, prop string, disk bool, walk []*graph.Edge, seed int
 				if name == "parse" && (to.Fetched.Kind == "good" || to.Fetched.Kind == "badsig") {
 					rw.fault.mu.Lock()
 					rw.fault.failInsertN = 1 + rr.rng.Intn(300)
+					rw.fault.mu.Unlock()
+				}
+				if name == "swapFault" {
+					rw.fault.mu.Lock()
+					rw.fault.failUpdate = true
 					rw.fault.mu.Unlock()
 				}
 				if name == "stage" && to.Kind == "first" {
@@ -433,7 +449,10 @@ func (rr *repoRun) observe(stop *repoStop, from, to *repoState, opName string) {
 			}
 		}
 		prev, cur := rr.prevDoc, keyStr(to.LiveDoc.Keys)
-		if got, ok := listedOf(res); ok {
+		if got, ok := listedOf(res); ok && rr.disk && !to.Final.Open && !to.Closed && to.Wlock == "none" && to.Loaded {
+			_ = got
+			c.Drift("closed-store-answers-after-failed-swap")
+		} else if ok {
 			// the lookups returned: they must have been answered from one complete accepted list
 			allowed := map[string]bool{}
 			if to.Loaded || from.Loaded {
@@ -459,6 +478,8 @@ func (rr *repoRun) observe(stop *repoStop, from, to *repoState, opName string) {
 			if expectBlock && rr.prop == "C13" {
 				c.Drift("lookup-not-blocked-during-locked-section")
 			}
+		} else if blocked == 0 && rr.disk && !to.Final.Open && !to.Closed && to.Wlock == "none" {
+			// the specification's store is closed after a failed swap: the lookups fail closed (C09), which is what happened
 		} else if blocked == 0 {
 			// some lookup returned an error although no fault was injected
 			for n, r := range res {
@@ -891,6 +912,12 @@ func guidedWalk(g *graph.Graph, init string, plans []runPlan) []*graph.Edge {
 				if (p.Inject == "stageErr" && n == "stage") || (p.Inject == "insertErr" && n == "parse") {
 					wantFail = true
 				}
+				for _, b := range bad {
+					if p.Inject == "swapErr" && opName(b) == "swapFault" {
+						wantFail = true
+						bad[0] = b
+					}
+				}
 			}
 			switch {
 			case wantFail:
@@ -948,6 +975,7 @@ func repoScenarios(rng *rand.Rand, thorough bool) [][]runPlan {
 		{Kind: "down"},
 		{Kind: "good", Keys: []string{"y", "z"}, Inject: "stageErr"},
 		{Kind: "good", Keys: []string{"y", "z"}, Inject: "insertErr"},
+		{Kind: "good", Keys: []string{"y", "z"}, Inject: "swapErr"},
 		{Kind: "good", Keys: []string{}},
 		{Kind: "good", Keys: []string{"x", "y", "z"}},
 	}
